@@ -262,9 +262,9 @@ class Pool():
                     self._depleted = True
                     return False, False, None
 
-            def get_next_idle_worker():
+            def get_next_idle_worker(skip=()):
                 maybe_idle = set(wid for wid, workload in self._pending_per_worker.items() if not workload)
-                idle = maybe_idle.difference(self._closed)
+                idle = maybe_idle.difference(self._closed).difference(skip)
                 if not idle:
                     return None
                 return self._workers[next(iter(idle))]
@@ -284,13 +284,19 @@ class Pool():
                 if worker_callback:
                     worker_callback(worker, 'died')
 
+                skipped = set()
                 while self._retries:
-                    idle = get_next_idle_worker()
+                    idle = get_next_idle_worker(skipped)
                     if idle is None:
                         break
 
                     logger.debug('Found an idle worker: {}, trying to enqueue workload from previous failures worker to it', idle)
+                    waiting = len(self._retries)
                     try_enqueue(idle)
+                    if len(self._retries) >= waiting:
+                        # the worker did not take anything (e.g. the user-provided enqueue function refused the input
+                        # for this worker) - do not offer it the same workload over and over again
+                        skipped.add(idle.id)
 
             def handle_no_enqueue(worker, reason):
                 logger.debug('Not enqueueing to the worker {}, reason: {}', worker, reason)
